@@ -25,7 +25,13 @@ def impl_batch(case):
                 V = to_np(it["vals"])
                 cls = pu.CompleteValuationProfile if not np.isnan(V).any() else pu.ValuationProfile
                 r = pu.compute_ordinal_profile(cls.of(V))
-                out.append({"out": [jrow([float(x) for x in row]) for row in np.asarray(r)], "type": type(r).__name__})
+                res1 = {"out": [jrow([float(x) for x in row]) for row in np.asarray(r)], "type": type(r).__name__}
+                try:
+                    f = pu.incomplete_valuation_profile_to_complete_valuation_profile(pu.ValuationProfile.of(V))
+                    res1["fill"] = [[fr(Fraction(float(x))) for x in row] for row in np.asarray(f)]
+                except Exception as e:  # noqa
+                    res1["fill"] = "exc " + type(e).__name__
+                out.append(res1)
             elif kind == "strictify":
                 Pm = to_np(it["P"])
                 np.random.seed(it["seed"])
@@ -113,6 +119,8 @@ def lines_for(it, res):
         for vrow, orow in zip(it["vals"], res["out"]):
             m = len(vrow)
             L.append(" ".join(["ordinal", str(m)] + [fr(x) for x in vrow] + [optn(x) for x in orow]))
+        for vrow in it["vals"]:
+            L.append(" ".join(["fillzero", str(len(vrow))] + [fr(x) for x in vrow]))
     elif kind == "strictify":
         for prow, orow in zip(it["P"], res["out"]):
             m = len(prow)
@@ -150,6 +158,22 @@ def judge(R, it, res, ans):
     R.count(kind + (":" + it["tb"] if "tb" in it else "") + (":" + it["gen"] if "gen" in it else ""))
     errs = []
     if kind == "ordinal":
+        # the second half of the answers belongs to the fill-with-zero conversion (outside the property statement: model coverage)
+        nrows = len(it["vals"])
+        fill_ans, ans = ans[nrows:], ans[:nrows]
+        for i, a in enumerate(fill_ans):
+            real = res.get("fill")
+            row = real[i] if isinstance(real, list) and i < len(real) else real
+            R.glue("helpers:incomplete_valuation_profile_to_complete_valuation_profile",
+                   isinstance(row, list) and a == " ".join(["ok"] + [str(x) for x in row]), {"vals": it["vals"][i], "real": row, "model": a})
+        # the second half of the answers belongs to the fill-with-zero conversion (outside the property statement: model coverage)
+        nrows = len(it["vals"])
+        fill_ans, ans = ans[nrows:], ans[:nrows]
+        for i, a in enumerate(fill_ans):
+            real = res.get("fill")
+            row = real[i] if isinstance(real, list) and i < len(real) else real
+            R.glue("helpers:incomplete_valuation_profile_to_complete_valuation_profile",
+                   isinstance(row, list) and a == " ".join(["ok"] + [str(x) for x in row]), {"vals": it["vals"][i], "real": row, "model": a})
         for vrow, orow in zip(it["vals"], res["out"]):
             k = sum(1 for v in vrow if v is not None)
             ranks = sorted(int(o) for o in orow if o is not None)
@@ -304,7 +328,8 @@ def gen_items(R, count, big):
                 continue
             if R.rng.random() < 0.5:
                 a = R.rng.choice([0.0, 0.5, 1.0])
-                items.append({"kind": kind, "gen": "uniform", "P": P, "a": a, "b": a + R.rng.choice([0.5, 1.0, 10.0]), "seed": R.rng.choice([0, 1, R.rng.randrange(10 ** 6), R.rng.randrange(10 ** 6)])})
+                width = R.rng.choice([0.5, 1.0, 10.0, 0.0]) if a > 0 else R.rng.choice([0.5, 1.0, 10.0])    # high == low (> 0) is a legal degenerate range
+                items.append({"kind": kind, "gen": "uniform", "P": P, "a": a, "b": a + width, "seed": R.rng.choice([0, 1, R.rng.randrange(10 ** 6), R.rng.randrange(10 ** 6)])})
             else:
                 items.append({"kind": kind, "gen": "normal", "P": P, "a": R.rng.choice([0.0, 0.5, 1.0, -0.5]), "b": R.rng.choice([0.01, 1.0, 4.0]),
                               "seed": R.rng.choice([0, 1, R.rng.randrange(10 ** 6), R.rng.randrange(10 ** 6)])})
